@@ -386,7 +386,8 @@ def _loop_scenarios(tier: str) -> list[Any]:
                 return []
             out = []
             essential = [(t, p['name']) for t, k, p in env.obs if k == 'user' and p['name'].startswith(('spec', 'label', 'annotate'))]
-            calls = [(t, p['id'], p.get('reason')) for t, k, p in env.obs if k == 'call' and p.get('reason') in ('create', 'update')]
+            calls = [(t, p['id'], p.get('reason')) for t, k, p in env.obs if k == 'call' and p.get('reason') in ('create', 'update')
+                     and p['id'] in ('c1', 'u1')]
             want = [('c1', 'create')] + [('u1', 'update')] * len(essential)
             got = [(i, r) for _, i, r in calls]
             if got != want:
@@ -394,6 +395,19 @@ def _loop_scenarios(tier: str) -> list[Any]:
                                      f"essential edits at {essential}; change handlers ran as {calls}, exactly {want} was due",
                                      clause='triggered-only-by-essential-changes', direction='more' if len(got) > len(want) else 'fewer',
                                      bare=bool(self.params.get('bare'))))
+            # what the handlers are GIVEN: old/new/diff, whole-object or narrowed to the handler's field, are exact and own-write-free
+            for t, k, p in env.obs:
+                if k != 'call' or 'diff' not in p or p.get('reason') not in ('create', 'update'):
+                    continue
+                o, n, d = p.get('old'), p.get('new'), [tuple(x) for x in p.get('diff') or []]
+                applied = apply_diff(o, d)
+                if not (json_eq_nullabsent(applied, n) or (applied is None and n is None) or (applied in (None, {}) and n in (None, {}))):
+                    out.append(self.viol(env, 'handler-diff-unsound', f"t={t}: handler {p['id']} got old={o!r} diff={d!r} new={n!r}: applying the diff to old "
+                                                                      f"gives {applied!r}", clause='diff-exact', narrowed='/' in p['id']))
+                blob = json.dumps([o, n, d], default=str)
+                if 'kopf.zalando.org' in blob or '"kopf"' in blob:
+                    out.append(self.viol(env, 'own-write-shown-to-handler', f"t={t}: handler {p['id']} was given the framework's own records in "
+                                                                            f"old/new/diff: {blob[:300]}", clause='own-writes-invisible', narrowed='/' in p['id']))
             writes = [w['t'] for w in self.op_writes(env)]
             t_last = max([t for t, _ in essential] + [1.0])
             late = [t for t in writes if t > t_last + 10]
@@ -415,6 +429,16 @@ def _loop_scenarios(tier: str) -> list[Any]:
                         continue
                     user = [(1.0, 'createbare' if bare else 'create', 'a')] + [(6.0 + 5 * i, *a) for i, a in enumerate(ed)]
                     handlers = [dict(id='c1', on='create', script=['ok']), dict(id='u1', on='update', script=['ok'])]
+                    if not bare and storage == 'annotations' and any(a[0] in ('annotate', 'label') for a in ed):
+                        # handlers narrowed to fields that the framework's own records live in, or next to
+                        # (NB: a handler on field='metadata' as a whole pulls resourceVersion & co. into the essence and makes the
+                        #  operator chase its own writes for ever - the user asked to watch system metadata; not part of this property)
+                        narrowed = handlers + [dict(id='fa', on='update', field='metadata.annotations', script=['ok']),
+                                               dict(id='fl', on='update', field='metadata.labels', script=['ok']),
+                                               dict(id='fs', on='update', field='spec', script=['ok'])]
+                        out.append(C04Loop(handlers=narrowed, user=user + [(user[-1][0] + 5, 'annotate', 'a', 'user/second', 'y')],
+                                           horizon=6.0 + 5 * len(ed) + 35, bare=bare, storage=storage, sub=sub, narrowed=True, lifecycle='all_at_once',
+                                           settings={'persistence__consistency_timeout': 5.0}, delays=False, early_user=False, time_dev=False))
                     out.append(C04Loop(handlers=handlers, user=user, horizon=6.0 + 5 * len(ed) + 25, bare=bare, storage=storage, sub=sub,
                                        settings={'persistence__consistency_timeout': 5.0}, delays=False, early_user=False, time_dev=False))
     return out
